@@ -41,6 +41,12 @@ func (x *X) globalPtr(g *ssa.Global) *PtrV {
 			if !declared {
 				declared = true
 				x.vc.decl(fmt.Sprintf("(declare-const %s %s)", name, s))
+				if vals, ok := x.constArrayValues(g); ok {
+					arr := el.Underlying().(*types.Array)
+					for i, v := range vals {
+						x.vc.decl(fmt.Sprintf("(assert (= (select %s %s) %s))", name, x.ic(int64(i)).S, x.enc.intConst(v, arr.Elem()).S))
+					}
+				}
 				if _, isPtr := el.Underlying().(*types.Pointer); isPtr && g.Pkg != nil && !isModulePkg(g.Pkg.Pkg.Path(), x.module) {
 					x.vc.decl(fmt.Sprintf("(assert (> %s 0))", name))
 					x.enc.assumption("package-level pointer variables of other modules (" + g.String() + ") are non-nil")
@@ -93,6 +99,8 @@ func (x *X) execBlock(fr *Frame, b *ssa.BasicBlock, cur *State, edgeSt map[edge]
 		case *ssa.If:
 			c := x.term(fr, in.Cond)
 			c = x.vc.define("cond", c)
+			x.objInvCheck(fr, cur, b, in, b.Succs[0], "scope")
+			x.objInvCheck(fr, cur, b, in, b.Succs[1], "scope")
 			t := cur.clone()
 			t.reach = x.vc.define("reach", mkAnd(cur.reach, c))
 			f := cur.clone()
@@ -101,6 +109,7 @@ func (x *X) execBlock(fr *Frame, b *ssa.BasicBlock, cur *State, edgeSt map[edge]
 			x.takeEdge(fr, b, b.Succs[1], f, edgeSt, headers)
 			return
 		case *ssa.Jump:
+			x.objInvCheck(fr, cur, b, in, b.Succs[0], "scope")
 			x.takeEdge(fr, b, b.Succs[0], cur, edgeSt, headers)
 			return
 		case *ssa.Return:
@@ -108,6 +117,7 @@ func (x *X) execBlock(fr *Frame, b *ssa.BasicBlock, cur *State, edgeSt map[edge]
 			for i, r := range in.Results {
 				vals[i] = x.val(fr, r)
 			}
+			x.objInvCheck(fr, cur, b, in, nil, "return")
 			fr.retSts = append(fr.retSts, cur)
 			fr.retVals = append(fr.retVals, vals)
 			return
@@ -147,6 +157,9 @@ func (x *X) execInstr(fr *Frame, st *State, in ssa.Instruction) {
 	case *ssa.BinOp:
 		fr.vals[in] = x.binop(fr, st, in)
 	case *ssa.Call:
+		if !x.callCannotSeeModuleObjects(in.Common()) {
+			x.objInvCheck(fr, st, in.Block(), in, nil, "call")
+		}
 		rets := x.call(fr, st, in.Common(), in, in.Pos())
 		sig := in.Common().Signature()
 		switch sig.Results().Len() {
@@ -189,6 +202,7 @@ func (x *X) execInstr(fr *Frame, st *State, in ssa.Instruction) {
 	case *ssa.FieldAddr:
 		p := x.ptrOf(x.val(fr, in.X), in.X.Type())
 		x.nilCheck(st, fr, p, in.Pos())
+		x.objInvAssume(fr, st, x.val(fr, in.X), in.X.Type(), in.Field)
 		np := *p
 		np.path = append(append([]int{}, p.path...), in.Field)
 		np.nonNil = true
@@ -583,7 +597,9 @@ func (x *X) indexAddr(fr *Frame, st *State, in *ssa.IndexAddr) SV {
 		s := x.term(fr, in.X)
 		base, off, ln, _ := x.sliceParts(s)
 		x.safety(st, fr, "index", mkAnd(x.ile(x.ic(0), i), x.ilt(i, ln)), in.Pos())
-		return &PtrV{kind: pkElem, ref: base, idx: x.vc.define("idx", x.iadd(off, i)), typ: xt.Elem(), nonNil: true}
+		idx := x.vc.define("idx", x.iadd(off, i))
+		x.instHints(fr, base, idx, xt)
+		return &PtrV{kind: pkElem, ref: base, idx: idx, typ: xt.Elem(), nonNil: true}
 	case *types.Pointer:
 		arr := xt.Elem().Underlying().(*types.Array)
 		p := x.ptrOf(x.val(fr, in.X), in.X.Type())
@@ -837,4 +853,40 @@ func (x *X) embeddedNonNil(p *PtrV, v Term) {
 	}
 	x.vc.assume(mkImplies(mkNot(mkEq(p.ref, intLit(0))), mkNot(mkEq(v, intLit(0)))))
 	x.enc.assumption("wfAST: embedded pointer parts of " + n.Obj().Pkg().Name() + " nodes (" + n.Obj().Name() + "." + f.Name() + ") are non-nil (set by the constructors)")
+}
+
+// instHints: the solvers do not find the instance of a quantified
+// precondition `forall i: ... p[i] ...` that an element read of a re-sliced
+// view of p needs (the index differs by the offsets, which defeats pattern
+// matching). Every instance of an assumed universal fact is itself a fact, so
+// at each element read of a slice the assumed preconditions are instantiated
+// at the position the element has in each slice parameter of the same element
+// type that shares the backing array.
+func (x *X) instHints(fr *Frame, base, idx Term, st *types.Slice) {
+	if len(x.assumedForalls) == 0 || x.pure > 0 || x.vc.quant > 0 || fr.fn != x.top {
+		return
+	}
+	if x.instDone == nil {
+		x.instDone = map[string]bool{}
+	}
+	for pi, p := range x.top.Params {
+		ps, ok := p.Type().Underlying().(*types.Slice)
+		if !ok || !types.Identical(ps.Elem(), st.Elem()) {
+			continue
+		}
+		pt, ok := fr.params[pi].(Term)
+		if !ok {
+			continue
+		}
+		pbase, poff, _, _ := x.sliceParts(pt)
+		key := fmt.Sprintf("%d|%s", pi, idx.S)
+		if x.instDone[key] || len(x.instDone) > 64 {
+			continue
+		}
+		x.instDone[key] = true
+		at := x.vc.define("inst", x.isub(idx, poff))
+		for _, f := range x.assumedForalls {
+			x.vc.assume(mkImplies(mkEq(pbase, base), f(at)))
+		}
+	}
 }
